@@ -14,6 +14,9 @@ fn main() {
         ("GET", "/nospace", "1.1", vec![("Host".into(), "a".into()), ("Accept".into(), "*/*".into()), ("X-Empty".into(), "".into())]),
         ("GET", "/dup", "1.1", vec![("X-A".into(), "1".into()), ("x-a".into(), "2".into()), ("X-A".into(), "1".into()), ("X-In".into(), "a  b\tc".into())]),
         ("GET", "/long", "1.1", vec![("Host".into(), "a".into()), ("X-Long".into(), long.clone()), ("X-After".into(), "z".into())]),
+        // values of headers the library itself interprets are reported in the letter case they were sent in
+        ("GET", "/case", "1.1", vec![("Host".into(), "A.Example".into()), ("Connection".into(), "Keep-Alive, TE".into()), ("TE".into(), "Trailers".into()), ("Content-Type".into(), "Text/HTML; Charset=UTF-8".into()), ("Upgrade-Insecure-Requests".into(), "1".into())]),
+        ("GET", "/case10", "1.0", vec![("connection".into(), "KEEP-ALIVE".into()), ("Accept-Encoding".into(), "GZip, Identity".into())]),
     ];
     let mut bad = Vec::new();
     for (i, (m, target, ver, hdrs)) in cases.iter().enumerate() {
